@@ -85,7 +85,7 @@ static std::vector<std::vector<Op>> parse_prog(const std::string& prog) {
 }
 
 static verif::Result run_threads(std::vector<std::function<void()>>& bodies, unsigned long long seed, int strategy) {
-  verif::Options opt; opt.seed = seed; opt.strategy = strategy; opt.max_steps = 400000;
+  verif::Options opt; opt.seed = seed; opt.strategy = strategy; opt.max_steps = 120000;
   opt.preempt_per_mille = 100 + (int)(seed % 7) * 120;
   return verif::run(bodies, opt);
 }
